@@ -441,6 +441,21 @@ theorem subst_atom (t p sub : Item) (h : Item.equals t p = false) (ha : isList t
   unfold Item.subst
   cases t <;> simp_all [isList]
 
+/-- the two closed-form SUBST rows of `expect` are what the model computes -/
+theorem expect_subst_sound (rc : Oracle → State → Nat → Option (Item × Nat)) (ρ : Oracle) (s w : State)
+    (h : expect .subst s = some w) : semCode rc ρ .subst s = w := by
+  rcases hc : s.code with _ | ⟨target, _ | ⟨sub, _ | ⟨pat, l⟩⟩⟩ <;> simp only [expect, hc] at h <;> (try (cases h; done))
+  simp only [semCode, hc]
+  split at h
+  · next he => cases h; rw [subst_root target pat sub he]
+  · split at h
+    · next hall =>
+      cases h
+      rw [subst_no_match target pat sub (fun q hq => by
+        have := List.all_eq_true.mp hall q hq
+        simpa using this)]
+    · cases h
+
 /-! ## CODE.CONTAINER -/
 
 /-- the list scan reports "no match" or a container, never "this item is the match" -/
